@@ -6,16 +6,19 @@ LEGS = [{"driver": "c06", "runner": ("agree", "Extract/ExtractAgree.v", "Agree_m
 COQ_TIMEOUT = 1500
 
 TECHNIQUE = ("Coq: client and server endpoint models (abstract message alphabet, symbolic terms) run against each other over a faithful "
-             "channel and swept by vm_compute over the whole finite configuration product (95 040 configurations) against a policy "
+             "channel and swept by vm_compute over the whole finite configuration product (190 080 configurations) against a policy "
              "predicate written from the property text; proofs of the key-block layout, of mirrored read/write keys and of pHash = "
              "P_hash for all inputs; models tied to /repo by real loopback connections (gmtls<->gmtls, gmtls<->Go crypto/tls both ways) "
              "with both ends' ConnectionState, exporters, errors and 0..200 KiB payloads in random fragments; GMSSL wire captures are "
              "decoded by the extracted Coq specifications (SM3 -> HMAC -> P_hash -> key block; SM4-CBC+HMAC-SM3 and SM4-GCM records)")
 LEVEL_TEXT = ("Theorems in Coq (Props/C06.v): for every configuration of the product server mode {GMSSL, auto, TLS} x client {GM, TLS 1.0, "
               "1.1, 1.2} x 11 client / 6 server suite lists from the generated tables x server preference x ClientAuth (5) x client "
-              "certificate {none, trusted, forged issuer} x certificates {static, callbacks} x tickets {on, off} the client model and the "
+              "certificate {none, trusted, forged issuer} x certificates {static, callbacks} x tickets {on, off} x ClientCAs {holds the "
+              "CAs, empty pool} the client model and the "
               "server model either both complete with equal version, suite, master-secret term, exporter term, key-block term and each "
-              "other's certificates, or both fail, and they complete exactly when policy_allows; the key block is cut as "
+              "other's certificates, or both fail, and they complete exactly when policy_allows, and then a second and third connection "
+              "from the same client session cache complete with the same parameters (resumed with the first master secret when tickets "
+              "are on); the key block is cut as "
               "clientMAC|serverMAC|clientKey|serverKey|clientIV|serverIV with the generated lengths and installed mirrored; prf12/pHash "
               "equals P_hash (RFC 5246 s.5 / GM/T 0024) for every secret, label, seed and length, instantiated with the HMAC-SM3 "
               "specification for GMSSL; Conn.Write/writeRecordLocked/Conn.Read deliver every sequence of writes in order and unmodified "
@@ -48,8 +51,12 @@ ASSUMPTIONS = [
     "record protection round trip per sequence number (premise of the data theorem; C07)",
     "server certificates: SM2 signing + encryption pair and one RSA certificate; client certificates: one issued by the CA, one with a forged issuer name",
 ]
-RULE = ("seeded generator (VERIF_SEED): 10 fixed completing configurations with 200 KiB / boundary payloads (GMSSL CBC and GCM, auto-switch GM and "
-        "TLS 1.2, TLS 1.0/1.1, crypto/tls on either end); a greedy pairwise cover of the 9-dimensional product; 130 (thorough 2 500) random "
+RULE = ("seeded generator (VERIF_SEED): 11 fixed completing configurations with 200 KiB / boundary payloads (GMSSL CBC and GCM, auto-switch GM and "
+        "TLS 1.2, TLS 1.0/1.1, GMSSL-only with callbacks, crypto/tls on either end); 8 ticket configurations with 2-3 connections from one client "
+        "session cache; 8 close-after-write configurations (the writer closes right after its last write, the reader drains with a 100..4096 "
+        "byte buffer until EOF: bytes before EOF must equal bytes written); the client-certificate policy matrix (5 policies x none/trusted/"
+        "forged issuer x full/empty ClientCAs) for GMSSL-only, TLS-only and auto-switch; a greedy pairwise cover of the 12-dimensional case "
+        "space (the 10 configuration dimensions + connections per client 1..3 + closing side); 130 (thorough 2 500) random "
         "configurations filtered to plausible ones plus (thorough) 3 000 uniform ones; 60 (thorough 1 200) interoperation runs with crypto/tls "
         "as server or client; 6 (thorough 48) captured GMSSL connections for the independent decoder. Payload sizes 0, 1..40, 16383..16385, "
         "32768, up to 64 KiB, 200 KiB; fragments 1, 1..64, 16384, 16385..56 KiB, 1..9000 bytes. Non-trivial = completing or policy-relevant "
@@ -74,8 +81,10 @@ def _cfg(f):
     mode, callbacks = f[2], f[9] == "1"
     if f[11] == "gs":                       # the standard library server: plain TLS, static certificate
         mode, callbacks = "tls", False
+    new = len(f) >= 19
     return dict(mode=mode, kind=f[3], cs=_suites(f[4]), ss=_suites(f[5]), prefer=f[6] == "1", auth=int(f[7]), ccert=f[8],
-                callbacks=callbacks, tickets=f[10] == "1", peer=f[11])
+                callbacks=callbacks, tickets=f[10] == "1", peer=f[11], pool=(f[15] == "1") if new else True,
+                conns=int(f[16]) if new else 1, closer=f[17] if new else "-", rbuf=int(f[18]) if new else 0)
 
 
 def allowed(c):
@@ -97,9 +106,23 @@ def allowed(c):
         return False
     if c["auth"] in (2, 4) and c["ccert"] == "n":
         return False
-    if c["auth"] >= 3 and c["ccert"] == "u":
+    # verify-if-given / require-and-verify: a presented certificate must chain to a CA of ClientCAs
+    if c["auth"] >= 3 and c["ccert"] != "n" and (c["ccert"] == "u" or not c["pool"]):
         return False
     return True
+
+
+def _letters(s):
+    """the per-connection letters of the 'more' field without the bracketed error texts"""
+    out, depth = "", 0
+    for ch in s:
+        if ch == "[":
+            depth += 1
+        elif ch == "]":
+            depth -= 1
+        elif depth == 0:
+            out += ch
+    return out
 
 
 def _payload(seed, direction, n):
@@ -112,7 +135,10 @@ def nontrivial(f):
 
 def classify(f, io):
     if f[0] == "A":
-        return "A:%s:%s:%s" % (f[11], f[3], io[1] if len(io) > 1 else "none")
+        extra = ""
+        if len(f) >= 19:
+            extra = ":n%s%s" % (f[16], "" if f[17] == "-" else ":close-" + f[17])
+        return "A:%s:%s:%s%s" % (f[11], f[3], io[1] if len(io) > 1 else "none", extra)
     return f[0] + ":" + f[2] + ":" + (io[0] if io else "none")
 
 
@@ -122,9 +148,11 @@ def same(f, io, mo):
             return False
         if io[1] != "C":
             return True
+        more_i = _letters(io[8]) if len(io) > 8 else "-"
+        more_m = mo[8] if len(mo) > 8 else "-"
         if f[11] != "gg":
-            return io[2] == mo[2]
-        return (io[2], io[3], io[5], io[6]) == (mo[2], mo[3], mo[5], mo[6])
+            return io[2] == mo[2] and more_i == more_m
+        return (io[2], io[3], io[5], io[6], more_i) == (mo[2], mo[3], mo[5], mo[6], more_m)
     return io == mo
 
 
@@ -157,5 +185,13 @@ def predicate(f, io):
     if pcc != want_pcc or pcs != want_pcs:
         return False, "peer certificates reported (%s / %s) differ from the configured ones (%s / %s)" % (pcc, pcs, want_pcc, want_pcs)
     if data != "1":
+        if c["closer"] != "-":
+            return False, ("application data: the bytes received before EOF differ from the bytes written (writer '%s' closed right after "
+                           "its last write, reader buffer %d)" % (c["closer"], c["rbuf"]))
         return False, "application data was not delivered in order and unmodified in both directions"
+    more = io[8] if len(io) > 8 else "-"
+    if c["conns"] > 1:
+        if _letters(more) != "C" * (c["conns"] - 1):
+            return False, ("a further connection with the same configurations and client session cache (tickets %s) did not complete with "
+                           "the same version, suite, peer certificates, equal exporters and intact data: %s" % ("on" if c["tickets"] else "off", more[:200]))
     return True, ""
